@@ -7,5 +7,4 @@ NOT_APPLICABLE = {
     "C01": NOT_BUILT, "C02": NOT_BUILT, "C03": NOT_BUILT, "C05": NOT_BUILT, "C06": NOT_BUILT, "C07": NOT_BUILT,
     "C10": NOT_BUILT, "C11": NOT_BUILT, "C12": NOT_BUILT, "C13": NOT_BUILT, "C14": NOT_BUILT, "C15": NOT_BUILT, "C19": NOT_BUILT,
     "C08": "behaviour when a future is dropped between two .await points (select! racing a half-read frame): de-async extraction (R1/R8) erases exactly those points; no pre/postcondition of a sequential function can mention them, and proving a hand-written poll state machine would be proving a model",
-    "C16": "cross-connection latency bound: a scheduling/liveness property of the accept loop and the tokio runtime; Verus contracts have no notion of progress of other tasks, Kani has no async scheduler",
 }
